@@ -36,7 +36,7 @@ def cases(prop, tier, seed):
             for t in range(4 * reps):
                 out.append(dict(kind="C20", inner=name, dseed=int(rs.randint(1 << 30)), n=int(rs.randint(6, 11)), nl=int(rs.choice([0, 2, 3])),
                                 mode=("none", "idx", "rows")[t % 3], excl=bool(t % 2), mc=(0.5, 3, 0.3, 100)[t % 4], b=int(rs.randint(1, 4)),
-                                jobs=(1, 2, 3)[t % 3], sseed=int(rs.randint(0, 30)), t=t, cls=name, key=["C20", name, t]))
+                                jobs=(1, 2, 3, -1)[t % 4], sseed=int(rs.randint(0, 30)), t=t, cls=name, key=["C20", name, t]))
     if prop == "C20":
         # third clause of C20: the single-annotator wrapper chooses samples in the order the wrapped strategy ranks them
         for name in ("US-least_confident", "US-margin", "US-entropy", "ProbabilisticAL", "QBC-KL", "EpistemicUS", "RandomSampling"):
